@@ -7,6 +7,7 @@
    model values f (moments_to_expectation_variance takes the absolute value of a negative variance). *)
 From Coq Require Import ZArith List QArith Qcanon Bool Arith Lia.
 From SG Require Import Base.QcUtil Model.Trap Model.UQ Model.UQGrid Proofs.TrapBasics Proofs.UQ Proofs.UQGrid Proofs.UQTriangle.
+From SG Require Model.CombiScheme Proofs.SchemeInv Proofs.UQScheme.
 Import ListNotations.
 Open Scope Qc_scope.
 
@@ -204,6 +205,25 @@ Print Assumptions C15_combined_weights_sum.
 Print Assumptions C15_integrate_rule_comp.
 Print Assumptions C15_uq_constant_vector_model.
 
+(* ---- the coefficient hypothesis discharged by C01: for EVERY state of the adaptive combination scheme that satisfies the C01
+   invariant (every initialisation, every update history) and every assignment of 1D weight vectors summing to 1 to its level
+   vectors, the combined weights sum to 1 and the expectation / variance laws hold on the combined rule ---- *)
+Theorem C15_scheme_combined_weights_sum_one : forall (s : CombiScheme.scheme) (ws : list Z -> list (list Qc)),
+  SchemeInv.Inv s -> (forall k w, In w (ws k) -> sumQ w = 1) ->
+  sumQ (combined_weights (UQScheme.scheme_comps (CombiScheme.combi_scheme_adaptive s) ws)) = 1.
+Proof. exact UQScheme.scheme_combined_weights_sum_one. Qed.
+Theorem C15_scheme_uq_laws : forall (s : CombiScheme.scheme) (ws : list Z -> list (list Qc)) f c e,
+  SchemeInv.Inv s -> (forall k w, In w (ws k) -> sumQ w = 1) ->
+  let W := combined_weights (UQScheme.scheme_comps (CombiScheme.combi_scheme_adaptive s) ws) in
+  length W = length f ->
+  ev_combi 2 W (map (fun t => [t; c * t + e]) f)
+  = ([rule_mom1 W f; c * rule_mom1 W f + e], [variance_of W f; c * c * variance_of W f])
+  /\ ev_nodes 2 W (map (fun t => [t; c * t + e]) f) = ev_combi 2 W (map (fun t => [t; c * t + e]) f)
+  /\ 0 <= variance_of W f.
+Proof. exact UQScheme.scheme_uq_laws. Qed.
+Print Assumptions C15_scheme_combined_weights_sum_one.
+Print Assumptions C15_scheme_uq_laws.
+
 (* ---- the weighted midpoint for the uniform distribution in closed form ---- *)
 Theorem C15_mid_uniform : forall A B a b : Qc,
   A < B -> a < b ->
@@ -298,3 +318,17 @@ Example C15_nonvacuous_ev :
   (fun p => (map this (fst p), map this (snd p))) (ev_combi 2 w vals) = ([1 # 2; -1 # 2], [15 # 4; 135 # 4])%Q /\
   (fun p => (map this (fst p), map this (snd p))) (ev_nodes 2 w vals) = ([1 # 2; -1 # 2], [15 # 4; 135 # 4])%Q.
 Proof. cbv zeta. split; vm_compute; reflexivity. Qed.
+
+(* the C01 scheme of dimension 2, lmax = 2, lmin = 1 (components (1,2), (2,1), -(1,1)) with triangle x uniform weights *)
+Example C15_nonvacuous_scheme :
+  exists s, CombiScheme.init_scheme 2 2%Z 1%Z = Some s /\ SchemeInv.Inv s /\
+    let ws := fun k : list Z => map (fun l => if Z.eqb l 1 then [q 1 4; q 1 2; q 1 4] else [q 1 8; q 1 4; q 1 4; q 1 4; q 1 8]) k in
+    (forall k w, In w (ws k) -> sumQ w = 1) /\
+    length (combined_weights (UQScheme.scheme_comps (CombiScheme.combi_scheme_adaptive s) ws)) = 39%nat.
+Proof.
+  destruct (CombiScheme.init_scheme 2 2%Z 1%Z) as [s|] eqn:E; [|vm_compute in E; discriminate].
+  exists s. split; [reflexivity|]. split; [exact (SchemeInv.init_inv 1 2%Z 1%Z s E)|].
+  split.
+  - intros k w Hin. apply in_map_iff in Hin. destruct Hin as [l [<- _]]. destruct (Z.eqb l 1); apply Qc_is_canon; vm_compute; reflexivity.
+  - vm_compute in E. inversion E; subst. vm_compute. reflexivity.
+Qed.
